@@ -187,6 +187,26 @@ pub fn gen(idx: u64, rng: &mut Rng, _tier: Tier) -> Scn {
         rng.next_u64(),
         if rng.chance(0.5) { None } else { Some(rng.range(1, 7) as u32) },
     );
+    // a stoppable object of the highest-priority queue removed right at the end of its first transfer (between its last
+    // packet and the next poll): the queue goes on with its next object at once
+    if rng.chance(0.12) {
+        let top = s.spec.queues.iter().map(|q| q.0).min().unwrap_or(0);
+        let x = (0..s.objects.len()).find(|i| {
+            let o = &s.objects[*i];
+            o.prio == top && o.len > 0 && o.carousel.is_none() && o.start_ms.is_none() && o.target.is_none() && s.ops.iter().any(|t| t.op == Op::Add(*i) && t.when == When::AtUs(0))
+        });
+        if let Some(x) = x {
+            let (symbols, blocks, parity) = {
+                let o = &s.objects[x];
+                let oti = o.oti.as_ref().unwrap();
+                let symbols = (o.len as u64 + oti.e as u64 - 1) / oti.e as u64;
+                (symbols, (symbols + oti.b as u64 - 1) / oti.b as u64, oti.parity as u64)
+            };
+            s.objects[x].immediate_stop = Some(true);
+            let k = (1 + symbols + blocks * parity) as i64 + *rng.pick(&[-1i64, 0, 0, 0, 1]);
+            s.ops.push(TimedOp { when: When::AfterPkt(k.max(1) as u64), op: Op::Remove(x) });
+        }
+    }
     // set_complete(): later adds are refused, the scheduling of what is queued does not change
     if rng.chance(0.08) {
         let when = if rng.chance(0.5) { When::AtUs(0) } else { When::AfterPkt(rng.range(1, 60)) };
